@@ -1,5 +1,7 @@
 
 #include <ctype.h>
+#include <errno.h>
+#include <math.h>
 #include <stdlib.h>
 
 #include "convert.h"
@@ -25,6 +27,7 @@ extern int mpt_cldouble(long double *val, const char *src, const long double ran
 	if (!*src) {
 		return 0;
 	}
+	errno = 0;
 	tmp = strtold(src, &end);
 	
 	if (end == src) {
@@ -35,6 +38,10 @@ extern int mpt_cldouble(long double *val, const char *src, const long double ran
 			}
 		}
 		return 0;
+	}
+	/* finite value exceeds range of type */
+	if (errno == ERANGE && (tmp == HUGE_VALL || tmp == -HUGE_VALL)) {
+		return MPT_ERROR(BadValue);
 	}
 	if (range && (range[0] > tmp || tmp > range[1])) {
 		return MPT_ERROR(BadValue);
